@@ -472,7 +472,7 @@ func c18OCIOracle(q c18OCI, o c18OOCI, bad func(sig, what string)) {
 				switch {
 				case len(cands) == 0:
 					if rs.Kind == "ok" && rs.Versions[0] == v {
-						// known finding K-C18-1: the OCI branch never reports a dependency as missing
+						// the defect repaired by ac0e5ef: the OCI branch never reported a dependency as missing
 						bad("oci-resolve-range-locked", where+" did not fail although no listed tag is in range: the lock carries the range text "+v+" as version")
 					} else if rs.Kind == "ok" {
 						bad("oci-resolve-unsatisfiable", where+" locked "+rs.Versions[0]+" although no listed tag is in range")
